@@ -238,7 +238,7 @@ class Model(object):
                 if on.denominator != 1 or off.denominator != 1:
                     integral = False
                 tr, ch = self.label(mode, pm, voice)
-                notes.append(dict(on=on, off=off, pitch=pitch, tr=tr, ch=ch, imp=self.import_label(mode, pm, voice)))
+                notes.append(dict(on=on, off=off, pitch=pitch, part=pm.idx, tr=tr, ch=ch, imp=self.import_label(mode, pm, voice)))
         # key signatures per part
         ks_by_part = {}
         for pm in self.parts:
